@@ -1595,5 +1595,56 @@ MUTANTS += [
     ("C11", "algos/_hdf_database.py", r"\(k for k in keys if k not in names_to_arrays\)", "(k for k in keys)"),
     ("C11", "algos/_hdf_database.py", r"                scalar_dict\.update\(names_to_arrays\)\n", "                pass\n"),
     ("C11", "algos/_hdf_database.py", r"keys\[int\(k\)\]: array\(v\)", "keys[0]: array(v)"),
-    ("C11", "algos/_hdf_database.py", r'array_name = f"arr_\{str_index\}"', 'array_name = f"arr_{raw_index + 1}"'),
+]
+
+# ---- C10 (round 4): what the public operators return (function makers' constructors, MDOFunction.__add__/__sub__/__mul__/__truediv__/offset)
+_OPS = "core/mdo_functions/_operations.py"
+MUTANTS += [
+    ("C10", _OPS, r"self._second_operand_is_func = isinstance\(second_operand, cls\)", "self._second_operand_is_func = not isinstance(second_operand, cls)"),
+    ("C10", _OPS, r"if self._first_operand.has_jac and self._second_operand.has_jac:", "if self._first_operand.has_jac or self._second_operand.has_jac:"),
+    ("C10", _OPS, r"            dim=self._first_operand.dim,", "            dim=0,"),
+    ("C10", _OPS, r"_subtract if inverse else _add,", "_add if inverse else _subtract,"),
+    ("C10", _OPS, r"numpy.divide if inverse else numpy.multiply,", "numpy.multiply if inverse else numpy.divide,"),
+    ("C10", _OPS, r"            self._compute_operation,\n            self._compute_name\(\),", "            self._first_operand.func,\n            self._compute_name(),"),
+    ("C10", _OPS, r"with_normalized_inputs=self._first_operand.expects_normalized_inputs,", "with_normalized_inputs=False,"),
+    ("C10", _OPS, r"output_names=self._first_operand.output_names,", "output_names=(),"),
+    ("C10", _OPS, r"            if self._first_operand.f_type:\n                f_type = self._first_operand.f_type", "            if self._first_operand.f_type:\n                f_type = self._second_operand.f_type"),
+    ("C10", _OPS, r"        self._first_operand = first_operand\n        self._second_operand = second_operand", "        self._first_operand = second_operand\n        self._second_operand = first_operand"),
+    ("C10", _OPS, r"            if self._first_operand.has_jac:\n                jac = self._compute_operation_jacobian", "            if not self._first_operand.has_jac:\n                jac = self._compute_operation_jacobian"),
+    ("C10", _MDOFN, r"return _AdditionFunctionMaker\(MDOFunction, self, other\).function", "return _AdditionFunctionMaker(MDOFunction, self, other, inverse=True).function"),
+    ("C10", _MDOFN, r"return _MultiplicationFunctionMaker\(MDOFunction, self, other\).function", "return _AdditionFunctionMaker(MDOFunction, self, other).function"),
+    ("C10", _MDOFN, r"        function = self \+ value\n", "        function = self - value\n"),
+]
+
+MUTANTS += [
+    # ---- C17 (c17_build): BaseFormulation._build_objective_from_disc (verified since the repair 5e6b38b; the first one is the revert mutant)
+    ("C17", "formulations/base_formulation.py", r"obj_mdo_fun, zeros\(self\.optimization_problem\.design_space\.dimension\)", "obj_mdo_fun, zeros(obj_mdo_fun.discipline_adapter.input_dimension)"),
+    ("C17", "formulations/base_formulation.py", r"        if obj_mdo_fun\.discipline_adapter\.is_linear:", "        if not obj_mdo_fun.discipline_adapter.is_linear:"),
+    ("C17", "formulations/base_formulation.py", r"        self\.optimization_problem\.objective = obj_mdo_fun\n", "        pass\n"),
+    ("C17", "formulations/base_formulation.py", r"obj_mdo_fun, zeros\(self\.optimization_problem\.design_space\.dimension\)", "obj_mdo_fun, zeros(self.optimization_problem.design_space.dimension + 1)"),
+    ("C17", "formulations/disciplinary_opt.py", r"        self\._filter_design_space\(\)\n        self\._set_default_input_values_from_design_space\(\)\n        self\._build_objective_from_disc\(objective_name\)",
+     "        self._build_objective_from_disc(objective_name)\n        self._filter_design_space()\n        self._set_default_input_values_from_design_space()"),
+]
+
+# ---- C02 values (contracts/c02_values.py): convert_array_to_dict through split_array_to_dict_of_arrays, get_current_value as an array
+# (selection key: tools/mutants.py C02 -k c02v)
+MUTANTS += [
+    ("C02", "utils/data_conversion.py", r"(?#c02v)        first_index \+= size\n\n    return result", "        first_index += 1\n\n    return result"),
+    ("C02", "utils/data_conversion.py", r"(?#c02v)indices\[dimension\] = slice\(first_index, first_index \+ size\)", "indices[dimension] = slice(first_index, first_index + size + 1)"),
+    ("C02", "utils/data_conversion.py", r"(?#c02v)    first_index = 0\n    for name in names\[0\]:", "    first_index = 1\n    for name in names[0]:"),
+    ("C02", "algos/design_space.py", r"(?#c02v)            if not self.__has_current_value:\n                variables = ", "            if self.__has_current_value:\n                variables = "),
+    ("C02", "algos/design_space.py", r"(?#c02v)            if value.size != self.dimension:\n                msg = \(\n                    \"Invalid current_x, \"", "            if value.size < self.dimension:\n                msg = (\n                    \"Invalid current_x, \""),
+    ("C02", "algos/design_space.py", r"(?#c02v)value = value.astype\(self.VARIABLE_TYPES_TO_DTYPES\[variable_type\]\)", "value = value.copy()"),
+    ("C02", "algos/design_space.py", r"(?#c02v)                self.__current_value\[name\] = value\n\n        self.__update_current_metadata\(\)\n        if self.__current_value:", "                pass\n\n        self.__update_current_metadata()\n        if self.__current_value:"),
+    ("C02", "algos/design_space.py", r"(?#c02v)        self.__update_current_metadata\(\)\n        if self.__current_value:\n            self._check_current_names\(\)", "        if self.__current_value:\n            self._check_current_names()"),
+    ("C02", "algos/design_space.py", r"(?#c02v)\{k: v for k, v in value.items\(\) if k in self\}", "{k: v for k, v in value.items() if k not in self}"),
+    ("C02", "algos/design_space.py", r"(?#c02v)self.__current_value = self.convert_array_to_dict\(value\)\n        elif isinstance\(value, OptimizationResult\)", "self.__current_value = self.convert_array_to_dict(value + 1)\n        elif isinstance(value, OptimizationResult)"),
+    ("C02", "algos/design_space.py", r"(?#c02v)self.__current_value_array = self.convert_dict_to_array\(\n                self.__current_value\n            \)", "self.__current_value_array = self.convert_dict_to_array(\n                self._lower_bounds\n            )"),
+]
+MUTANTS += [
+    # ---- C05 BaseDiscipline.execute / _store_cache / __create_input_data_for_cache with a FULL cache (contracts/c05_execute_full.py)
+    ("C05", "core/discipline/base_discipline.py", r"                output_data\[name\] = to_array\(name, value\)", "                pass"),
+    ("C05", "core/discipline/base_discipline.py", r"        self.cache.cache_outputs\(input_data, output_data\)", "        self.cache.cache_outputs(output_data, output_data)"),
+    ("C05", "core/discipline/base_discipline.py", r"                input_data_\[input_name\] = to_array\(input_name, value\)", "                pass"),
+    ("C05", "core/discipline/base_discipline.py", r"            input_data_for_cache = self.__create_input_data_for_cache\(input_data\)", "            input_data_for_cache = input_data"),
 ]
